@@ -155,7 +155,17 @@ ObsSeq(t, o) ==
   IN IF o.pos = "result" /\ t.k # "None" /\ Canon(t) = { Null } /\ raw = << { Null } >> THEN <<>> ELSE raw
 ExpSeq(t, o) == IF o.pos = "result" THEN ExpectedResults(t) ELSE << Canon(t) >>
 
+(* "Optional or '| None' to a nullable type": when the meaning is one class, builtin, list, set, map or tuple type plus null, the type is    *)
+(* written in its nullable form `T?`, however the annotation spells it (duplicates, order, Optional / Union / |); a type variable, a    *)
+(* generic class and a callable have no nullable form and stay `union<T, Nothing?>`.                                                   *)
+HasNullableForm(a) == a.c \in {"Builtin", "List", "Set", "Map", "Tuple"} \/ (a.c = "Named" /\ a.args = <<>> /\ a.n # "TVar")
+MustBeNullable(t) == LET m == Canon(t) IN Null \in m /\ Cardinality(m \ {Null}) = 1 /\ HasNullableForm(CHOOSE a \in m \ {Null} : TRUE)
+JudgeForm(t, obs) ==
+  { [ property |-> "C05", clause |-> "NullableForm", sig |-> o.pos \o ":nullable-type-written-as-union:" \o Shape(t),
+      expected |-> "T?", observed |-> ToString(o.tys[1]) ]
+    : o \in { o \in { obs.pos[j] : j \in 1..Len(obs.pos) } : ~o.missing /\ Len(o.tys) = 1 /\ MustBeNullable(t) /\ o.tys[1].k = "union" } }
 Judge(t, obs) ==
+  JudgeForm(t, obs) \cup
   { [ property |-> "C05", clause |-> "Position",
       sig |-> o.pos \o ":" \o (IF o.missing THEN "declaration-missing:" ELSE "") \o Shape(t),
       expected |-> ToString(ExpSeq(t, o)),
